@@ -31,6 +31,12 @@ CHECKS = {
         text="TLC proves Prefix/SeqByOne/Sticky for the channel model with a free adversary (3-4 records, 3 actions) and enumerates all canonical schedules of <=2 actions with concrete instances (header field rewrites incl. type->alert/CCS on alert-like payloads, IV/body/MAC byte flips, truncation/extension, drop, dup, swap, forged / other-direction / other-connection records); each runs against both GMSSL suites and both directions: what Read returned must be exactly the predicted prefix and the first affected record must end the connection with a fatal error; single-bit flips over a whole record; every encrypt/decrypt/CCS/error of every run is validated by the half-connection trace spec.",
         note="Trusts TLC, the interposer and the hooks (emitted under the half-connection lock). The CBC padding catalogue (every length 0..255, corrupted padding bytes) is produced by TLC itself: RecordSeal.tla derives the session keys from the key log and seals the records that the real receiver must accept or reject. Schedules beyond 2 actions and records beyond 3 are covered by the model only.",
         ref="DESIGN.md section 5 C07"),
+    "C08": dict(
+        level="model_checking",
+        technique="TLA+ symbolic model TLCPAdv of the GM/T 0024 ECC handshake with an attacker (Authentication, Agreement checked by TLC); every attacker scenario realised against real endpoints through generated PKI, wrong private keys, verif peer fault points and a field-aware man in the middle",
+        text="TLC checks Authentication (client completes only with a peer holding both certified keys and proving it in this session; server with verified client auth only with the key holder over this transcript) and Agreement on the symbolic model for every single-deviation scenario (7 certificate kinds per slot, wrong key per slot, SKE omitted/replayed/mis-signed/over another encryption certificate, client certificate kinds, wrong client key, replayed CertificateVerify, 13 field rewrites, a changed byte at 8 (64 thorough) positions of each plaintext handshake message, verification off); each scenario runs against the real client and server and the set of endpoints that complete must be the model's.",
+        note="Symbolic cryptography (signatures unforgeable, encryption opaque). GMSSL suites only; the TLS 1.x path relies on C06 interop. One deviation per scenario.",
+        ref="DESIGN.md section 5 C08"),
     "C11": dict(
         level="model_checking",
         technique="executable TLA+ definitions of PKCS#7 + ECB/CBC/CFB/OFB over SM4.tla evaluated by TLC as oracle (ModesTab); helpers' package-level IV modelled as state (Modes.tla) with TLC-simulated SetIV/encrypt/decrypt behaviours replayed and validated by TLC (ModesTrace); caller-memory canaries",
